@@ -465,7 +465,7 @@ fn c04_port_r3_ics_both_absent() {
 	kani::cover!(a == b, "rollback: same id twice");
 }
 
-// @verif property=C04 tier=thorough mem=24 timeout=3600
+// @verif property=C04 tier=thorough mem=24 timeout=5400
 // @encodes peppi::io::slippi::de::parse_event with two occupied ports: each character's events land in its own port's columns, whatever the event order
 // @symbolic 2500 frame id, payloads of 4 character events
 // @bound version 3.16.0, ports P2 and P4 occupied (slots 0 and 1), one frame, pre events in reverse port order
@@ -517,5 +517,68 @@ fn c04_two_ports_slot_mapping() {
 	assert!(f.ports[1].leader.pre.random_seed.values()[0] == u32::from_be_bytes([pre4[7], pre4[8], pre4[9], pre4[10]]));
 	assert!(f.ports[0].leader.post.character.values()[0] == post2[7]);
 	assert!(f.ports[1].leader.post.character.values()[0] == post4[7]);
+	kani::cover!(true, "reached");
+}
+
+// @verif property=C04,C01 tier=thorough mem=24 timeout=5400
+// @encodes peppi::io::slippi::de::parse_event (old framing: a frame is opened by the first Frame Pre event carrying the next id) with two occupied ports, where the port that reports first was absent from the previous frame
+// @symbolic 1900 all Pre/Post payload bytes of 6 events
+// @bound version 0.1.0, ports P1 and P2 occupied, two consecutive frames: P1 absent from the first, both present in the second (P1's Frame Pre comes first)
+// @assume state built by ParseState::verif_from_parts; column sets are a typed stack array; the final frame_close() of read() is called through a hook
+// @stub alloc::fmt::format = returns an empty String
+// @stub std::hash::RandomState::new = fixed keys
+// @cbmc --max-field-sensitivity-array-size 512
+#[kani::proof]
+#[kani::unwind(8)]
+#[kani::stub(alloc::fmt::format, format_stub)]
+#[kani::stub(std::hash::RandomState::new, random_state_stub)]
+fn c04_two_ports_r1_first_reporter_returns() {
+	let v = Version(0, 1, 0);
+	let mut store = core::mem::ManuallyDrop::new([
+		core::mem::ManuallyDrop::into_inner(new_port(v, Port::P1, false)),
+		core::mem::ManuallyDrop::into_inner(new_port(v, Port::P2, false)),
+	]);
+	let mut state = two_port_state(v, &mut store, [Port::P1, Port::P2]);
+	const PRE: usize = 1 + 6 + 52;
+	const POST: usize = 1 + 6 + 27;
+	let a = -123i32;
+	let b = -122i32;
+	// frame a: P2 only
+	let mut pre_a2: [u8; PRE] = kani::any();
+	put_port_header(&mut pre_a2, 0x37, a, 1, false);
+	step(&mut state, &pre_a2, 0x37);
+	let mut post_a2: [u8; POST] = kani::any();
+	put_port_header(&mut post_a2, 0x38, a, 1, false);
+	step(&mut state, &post_a2, 0x38);
+	// frame b: P1 (returning) reports first, then P2
+	let mut pre_b1: [u8; PRE] = kani::any();
+	put_port_header(&mut pre_b1, 0x37, b, 0, false);
+	step(&mut state, &pre_b1, 0x37);
+	let mut pre_b2: [u8; PRE] = kani::any();
+	put_port_header(&mut pre_b2, 0x37, b, 1, false);
+	step(&mut state, &pre_b2, 0x37);
+	let mut post_b1: [u8; POST] = kani::any();
+	put_port_header(&mut post_b1, 0x38, b, 0, false);
+	step(&mut state, &post_b1, 0x38);
+	let mut post_b2: [u8; POST] = kani::any();
+	put_port_header(&mut post_b2, 0x38, b, 1, false);
+	step(&mut state, &post_b2, 0x38);
+	state.verif_frame_close();
+
+	let f = state.frames();
+	assert!(f.id.len() == 2);
+	let p1 = &f.ports[0];
+	let p2 = &f.ports[1];
+	assert!(p1.leader.pre.len() == 2 && p1.leader.post.len() == 2);
+	assert!(p2.leader.pre.len() == 2 && p2.leader.post.len() == 2);
+	// presence bits: one per row, P1 absent in row 0 and present in row 1, P2 always present
+	assert!(!bit(&p1.leader.validity, 0, 2));
+	assert!(bit(&p1.leader.validity, 1, 2));
+	assert!(bit(&p2.leader.validity, 0, 2) && bit(&p2.leader.validity, 1, 2));
+	assert!(p1.leader.pre.random_seed.values()[1] == u32::from_be_bytes([pre_b1[7], pre_b1[8], pre_b1[9], pre_b1[10]]));
+	assert!(p2.leader.pre.random_seed.values()[0] == u32::from_be_bytes([pre_a2[7], pre_a2[8], pre_a2[9], pre_a2[10]]));
+	assert!(p2.leader.pre.random_seed.values()[1] == u32::from_be_bytes([pre_b2[7], pre_b2[8], pre_b2[9], pre_b2[10]]));
+	assert!(p1.leader.post.character.values()[1] == post_b1[7]);
+	assert!(p2.leader.post.character.values()[0] == post_a2[7]);
 	kani::cover!(true, "reached");
 }
